@@ -1994,6 +1994,10 @@ func (mvcc *MVCCLevelDB) RawCompareAndSwap(cf string, key, expectedValue, newVal
 	}
 
 	oldValue, err = db.Get(key, nil)
+	if err == leveldb.ErrNotFound {
+		// the key does not exist: the previous value is nil, which matches a "previous not exist" expectation
+		oldValue, err = nil, nil
+	}
 	if err != nil {
 		tikverr.Log(err)
 		return nil, false, errors.WithStack(err)
